@@ -26,6 +26,7 @@ RULE = ('Seeded random cases over a pool of 16 configurations = model {linear-sq
         'weights and the cluster assignment vs closed forms and across geometries. Non-trivial: a batch with at least one '
         'padded row (incl. fully padded), or a dataset / algo case (its geometries always differ in batch count or padding), '
         'or an empty client; distinct by (configuration, mask / geometries, data digest).')
+RULE += (' Wave-4 addition: in a third of the dataset cases the hand-built and one padded geometry are materialised once and evaluated twice under jax.disable_jit (evaluate_average_loss, Mime gradient pass); batch dicts must keep keys and contents.')
 ASSUMPTIONS = [
     'generated per-example losses ignore the PRNG key and are finite on all-zero and on finite-garbage padding rows '
     '(masking is by multiplication, DESIGN domain note)',
